@@ -19,6 +19,10 @@ class GzipMiddleware(Middleware):
             # bare BaseResponses and are re-rendered after the middleware
             # chain has run, so they must not be compressed here
             return resp
+        if not hasattr(resp, 'vary'):
+            # any other bare BaseResponse (no header descriptors to
+            # work with): passed through as it is
+            return resp
         # TODO: shortcut redirects/304s/responses without content?
         resp.vary.add('Accept-Encoding')
         if resp.content_encoding or not request.accept_encodings['gzip']:
@@ -26,8 +30,9 @@ class GzipMiddleware(Middleware):
 
         # https://connect.microsoft.com/IE/feedback/details/1795907/content-encoding-gzip-in-response-header-is-missing-on-ie11
         if 'msie' in (request.user_agent.browser or ''):
-            if not (resp.content_type.startswith('text/') or
-                    'javascript' in resp.content_type):
+            content_type = resp.content_type or ''  # may be unset
+            if not (content_type.startswith('text/') or
+                    'javascript' in content_type):
                 return resp
 
         if resp.is_streamed:
